@@ -248,6 +248,87 @@ struct ReplyStats {
 /// Free-text of an error reply as a remote node may word it: empty, short, long ASCII, long runs of 2-, 3- and
 /// 4-byte UTF-8 characters behind 0..3 ASCII bytes (so that every byte offset falls inside a character for
 /// some reply), and bytes that are no UTF-8 at all.
+/// Well-formed, correctly signed and authorised writes whose fields sit on their boundaries: code that only
+/// runs after the token and the signature have been accepted (timestamp windows, seq / cas arithmetic, size
+/// limits, port handling) is out of reach of datagrams that fail earlier.
+fn authorised_writes_part(r: &mut Report, a: &Args) {
+    use super::srv::{sign_announce, sign_mutable, Fixture, Reply};
+    use crate::sha1::{immutable_target, mutable_target};
+    let rounds = (if a.quick() { 32 } else { 640 }) / a.nshards.max(1);
+    let mut rng = Rng::new(mix(a.seed, 0xa07 + a.shard));
+    for round in 0..rounds {
+        r.eval();
+        let seed = rng.u64();
+        let fx = Fixture::new(seed, None);
+        let mut c = fx.client(SocketAddrV4::new(Ipv4Addr::new(88, 2, 2, 2), 7001), rng.array());
+        let id = c.id;
+        let signer = ed25519_dalek::SigningKey::from_bytes(&rng.array::<32>());
+        let case = json!({"class":"authorised-boundary-writes","seed":seed.to_string(),"round":round});
+        let mut sent = 0u64;
+        let mut answered = 0u64;
+        let mut last = String::new();
+        let mut unanswered: Vec<String> = vec![];
+        let mut fire = |fx: &Fixture, c: &mut super::srv::Client, what: String, build: &dyn Fn(&[u8], &[u8]) -> Vec<u8>| {
+            // a fresh token for every write (some of the writes below are refused on purpose)
+            fx.rpc(c, |t| q_get_peers(t, &id, &[0x21; 20], false));
+            let tok = c.token.clone().map(|t| t.0).unwrap_or_default();
+            let reply = fx.rpc(c, |t| build(t, &tok));
+            sent += 1;
+            if !matches!(reply, Reply::None) {
+                answered += 1;
+            } else {
+                unanswered.push(what.clone());
+            }
+            last = what;
+        };
+        let ih: [u8; 20] = rng.array();
+        for dt in [i64::MIN / 2, -3_600_000_000, -46_000_000, -45_000_000, -44_000_000, -10_000_000, -1_000_000, -1, 0, 1, 1_000_000, 5_000_000, 10_000_000, 10_000_001, 44_000_000, 45_000_000, 46_000_000, 3_600_000_000, i64::MAX / 2] {
+            let now = fx.w.unix_micros() as i64 + 1000;
+            let ts = now.saturating_add(dt).max(0) as u64;
+            let sg = sign_announce(&signer, &ih, ts);
+            fire(&fx, &mut c, format!("announce_signed_peer t = now {dt:+} us"), &|t, tok| q_announce_signed_peer(t, &id, &ih, &sg.k, &sg.sig, ts, tok));
+        }
+        for ts in [0u64, 1, u64::MAX, u64::MAX - 1, i64::MAX as u64, i64::MAX as u64 + 1] {
+            let sg = sign_announce(&signer, &ih, ts);
+            fire(&fx, &mut c, format!("announce_signed_peer t = {ts}"), &|t, tok| q_announce_signed_peer(t, &id, &ih, &sg.k, &sg.sig, ts, tok));
+        }
+        for seq in [i64::MIN, i64::MIN + 1, -1, 0, 1, i64::MAX - 1, i64::MAX] {
+            for cas in [None, Some(i64::MIN), Some(-1), Some(0), Some(seq), Some(i64::MAX)] {
+                for (vlen, saltlen) in [(0usize, 0usize), (1, 1), (1000, 64), (1001, 0), (3, 65)] {
+                    let v = vec![b'v'; vlen];
+                    let salt = vec![b's'; saltlen];
+                    let salt_opt = if saltlen == 0 && rng.bool() { None } else { Some(&salt[..]) };
+                    let sg = sign_mutable(&signer, seq, &v, salt_opt);
+                    let target = mutable_target(&sg.k, salt_opt);
+                    fire(&fx, &mut c, format!("put_mutable seq {seq} cas {cas:?} v {vlen} salt {saltlen}"), &|t, tok| q_put_mutable(t, &id, tok, &target, &v, &sg.k, &sg.sig, seq, salt_opt, cas));
+                }
+            }
+        }
+        for (port, implied) in [(0u16, None), (1, None), (65535, None), (0, Some(1i128)), (7, Some(0)), (7, Some(2)), (7, Some(255))] {
+            fire(&fx, &mut c, format!("announce_peer port {port} implied {implied:?}"), &|t, tok| q_announce_peer(t, &id, &ih, port, implied, tok));
+        }
+        for vlen in [0usize, 1, 999, 1000, 1001] {
+            let v = vec![b'i'; vlen];
+            let target = immutable_target(&v);
+            fire(&fx, &mut c, format!("put_immutable v {vlen}"), &|t, tok| q_put_immutable(t, &id, tok, &target, &v));
+        }
+        // every one of these is answered (ack or BEP error), and the node is still there afterwards
+        let alive = fx.server_alive();
+        let pong = matches!(fx.rpc(&mut c, |t| q_ping(t, &id)), Reply::Resp(_));
+        r.add("authorised_boundary_writes", sent);
+        r.add("authorised_boundary_writes_answered", answered);
+        let panics = fx.finish();
+        if !alive || !pong || !panics.is_empty() {
+            let loc = panics.first().map(|p| p.1.replace("/repo/", "")).unwrap_or_else(|| "no-panic-recorded".into());
+            r.violation(&format!("authorised-write/actor-panic/{loc}"), "a well-formed, authorised write with boundary field values killed the node (or it no longer answers a ping)", case.clone(), json!({"last_write": last, "panics": panics.iter().map(|p| format!("{} @ {}: {}", p.0, p.1, p.2)).collect::<Vec<_>>(), "answers_ping": pong}));
+        } else if answered != sent {
+            r.violation("authorised-write/no-reply", "a well-formed write got no reply", case.clone(), json!({"sent": sent, "answered": answered, "unanswered": unanswered}));
+        }
+        r.count("authorised_write_rounds");
+        r.nontrivial(mix(seed, sent));
+    }
+}
+
 fn hostile_text(rng: &mut Rng) -> Vec<u8> {
     match rng.usize(6) {
         0 => vec![],
@@ -520,6 +601,7 @@ pub fn run(a: &Args) -> Report {
     let threads = a.nshards.max(1) as usize;
     decoder_part(&mut total, a, a.shard as usize, threads);
     live_inject_part(&mut total, a);
+    authorised_writes_part(&mut total, a);
     hostile_reply_part(&mut total, a);
     total
 }
